@@ -109,6 +109,10 @@ def concrete_pp(inp):
         pw = mixmod.get_partial_pressures(T, mix, cm.to_weight(mix), model)
         if not (close(p[0], pw[0], 1e-8) and close(p[1], pw[1], 1e-8)):
             bad.append("%s: weight-basis input gives %r, molar %r" % (model, pw, p))
+        if 0 < x < 1:
+            gw = mixmod.calculate_activity_coefficients(T, mix, cm.to_weight(mix), model)
+            if not (close(g[0], gw[0], 1e-8) and close(g[1], gw[1], 1e-8)):
+                bad.append("%s: activity coefficients of the equivalent mass fraction %r, of the mole fraction %r" % (model, tuple(map(float, gw)), tuple(map(float, g))))
     g1 = mixmod.calculate_activity_coefficients(T, mix, mixmod.Composition(1.0, "molar"), "NRTL")[0]
     g2 = mixmod.calculate_activity_coefficients(T, mix, mixmod.Composition(0.0, "molar"), "NRTL")[1]
     if not (close(g1, 1.0) and close(g2, 1.0)):
@@ -312,8 +316,37 @@ def pressures(job):
                 job.vacuity["failed"].append(model)
 
 
+def basis(job):
+    """calculate_activity_coefficients documents 'mol or weight': a mass fraction must be evaluated at the equivalent mole fraction"""
+    job.assume("0 < w < 1 (mass fraction), 273 < T < 400, molar masses > 0")
+    T, w = real("T"), real("x")
+    fb = [{"T": 333.15, "x": 0.3, "mixture": m} for m in ("H2O_EtOH", "MeOH_MTBE")]
+    for model, mix in (("NRTL", build.sym_mixture(two_alpha=True, with_a=True)), ("UNIQUAC", build.lift_obj(_named_mixture("H2O_EtOH")))):
+        M1, M2 = mix.first_component.molecular_weight, mix.second_component.molecular_weight
+        dom = build.domain_T(T) + build.domain_open01(w) + [lift(M1) > 0, lift(M2) > 0]
+        tag = "C04/basis/%s" % model
+        inputs = {"T": T.t, "x": w.t, "mixture": "H2O_EtOH"}
+
+        def run():
+            gw = mixmod.calculate_activity_coefficients(T, mix, build.comp(w, "weight"), model)
+            gm = mixmod.calculate_activity_coefficients(T, mix, build.comp(build.S(build.x_of_w(w, M1, M2)), "molar"), model)
+            return gw, gm
+
+        n = 0
+        for leaf in job.explore(run, dom):
+            if leaf.kind != "returned":
+                job.prove(tag + "/no_raise", dom + leaf.pc, z3.BoolVal(True), R_PP, inputs, fallback=fb)
+                continue
+            n += 1
+            gw, gm = leaf.value
+            job.prove(tag + "/mass_fraction_evaluated_at_equivalent_mole_fraction", dom + leaf.conds(),
+                      z3.Or(lift(gw[0]) != lift(gm[0]), lift(gw[1]) != lift(gm[1])), R_PP, inputs, fallback=fb, congruence=["EXP", "LOG"], timeout=30)
+        if n == 0:
+            job.vacuity["failed"].append(tag)
+
+
 def jobs(tier):
-    js = [("nrtl", "nrtl", {}), ("pressures", "pressures", {})]
+    js = [("nrtl", "nrtl", {}), ("pressures", "pressures", {}), ("basis", "basis", {})]
     for name in UNIQUAC_SETS:
         js.append(("uniquac_" + name, "uniquac", {"names": [name]}))
     return js
